@@ -183,15 +183,15 @@ def bad_result(ev, m):
     return ev
 
 
-def driver_check(pid, tier, gen_args, rule, chunk=80, level="model_checking", extra_cov=None, assumptions=(), mc_sample=0, module="Trace_Query"):
+def driver_check(pid, tier, gen_args, rule, chunk=80, level="model_checking", extra_cov=None, assumptions=(), mc_sample=0, module="Trace_Query", binary="sqlq"):
     """Generate with cmd/sqlq (gen_args), validate every recorded event with TLC against
     Trace_Query/SQLSem, confirm each disagreement in isolation, classify, write evidence."""
     t0 = time.time()
-    binp = lib.build("sqlq")
+    binp = lib.build(binary)
     v = lib.Verdict(pid)
     with lib.Scratch() as scd:
-        nw = run_witnesses(binp, pid, v, scd)
-        mc_cov = run_mc_cases(binp, pid, v, scd, mc_sample) if mc_sample else {}
+        nw = run_witnesses(lib.build("sqlq") if binary != "sqlq" else binp, pid, v, scd)
+        mc_cov = run_mc_cases(lib.build("sqlq"), pid, v, scd, mc_sample) if mc_sample else {}
         trace = os.path.join(scd, "trace.ndjson")
         rep = lib.run_report([binp] + gen_args + ["-out", trace], timeout=3000)
         lib.log("[%s] generated %d cases in %.1fs" % (pid, rep["cases"], time.time() - t0))
